@@ -138,13 +138,15 @@ A one-character change of a predicate in lexer.c changes the generated definitio
 
 /-! ### end-of-input test and the one-byte comparison -/
 
+set_option linter.unusedSimpArgs false in  -- the extra facts serve other spellings of the comparison
 theorem iseos_ref (buf : Lexer.Bytes) (n : Nat) : (iseos (st buf n) != 0) = Lexer.iseos buf n := by
   simp only [iseos, Lexer.iseos, st_buf, st_pos]
   by_cases h : buf.length ≤ n
-  · have : (0 + (buf.length : Int)) ≤ (n : Int) := by omega
-    simp [h]
-  · have : ¬ (0 + (buf.length : Int)) ≤ (n : Int) := by omega
-    simp [h]
+  · have h1 : (buf.length : Int) ≤ (n : Int) := by omega
+    simp [h, h1, b2i]
+  · have h1 : ¬ (buf.length : Int) ≤ (n : Int) := by omega
+    have h2 : (n : Int) < (buf.length : Int) := by omega
+    simp [h, h2, b2i]
 
 theorem iseos_in (buf : Lexer.Bytes) (n : Nat) (h : n < buf.length) : (iseos (st buf n) != 0) = false := by
   rw [iseos_ref]; simp [Lexer.iseos]; omega
@@ -266,7 +268,7 @@ inside, `iseos` is false and the reads deliver the byte; at the end, `iseos` is 
 (`rd_out` is deliberately not used: a read at the end of the input leaves a state that is not clean) -/
 macro "lexc_cases " n:term ", " buf:term : tactic => `(tactic|
   (by_cases hlt_ : $n < List.length $buf
-   · simp [iseos_in _ _ hlt_, iseos_in0 _ _ hlt_, rd_in _ _ hlt_, ischr_in _ _ _ hlt_, peekP_in _ _ _ hlt_, lexc_cls, uc, *]
+   · simp [iseos_in _ _ hlt_, iseos_in0 _ _ hlt_, rd_in _ _ hlt_, ischr_in _ _ _ hlt_, peekP_in _ _ _ hlt_, lexc_cls, uc, Lexer.isWs, Lexer.isPlusMn, Lexer.isE, Lexer.isBDigit, *]
      try lexc_close
    · have hge_ : List.length $buf ≤ $n := Nat.le_of_not_lt hlt_
      simp [iseos_out _ _ hge_, iseos_out0 _ _ hge_, peekP_out _ _ _ hge_, uc, *]
